@@ -17,6 +17,8 @@ G_TEXT = {
     "F4": "GPAI: for every create_node callback that can fire where in_ordered_choice may be set, the instance's delete_node "
           "dispatcher has an arm for that node kind",
     "F5": "GPAI: the Option result of a rule function called where in_ordered_choice may be set is branched on (`?` never dropped)",
+    "F8": "GPAI: the error-suppression flag Parser.error_since_advance is not set where in_ordered_choice may be set (the snapshot does not "
+          "cover it: a failed attempt would leave error reporting switched off)",
     "F6": "GPAI: open_before executed inside an undoable attempt takes a mark created after the attempt's snapshot "
           "(an insertion below the snapshot cannot be undone by truncation)",
 }
